@@ -219,6 +219,7 @@ class FuncEffects:
                     if s not in work:
                         work.append(s)
         self._rd = (IN, OUT)
+        self._defs_by_id = {id(d): d for ds in gen.values() for d in ds}
         self.local_names = names | set(self.params) | ({self.vararg} if self.vararg else set()) | ({self.kwarg} if self.kwarg else set())
         return self._rd
 
@@ -481,6 +482,37 @@ class FuncEffects:
         return {"unknown"}
 
     # ---- data sources (what a value is computed *from*, through any operation) ---------------------------------------
+    def _control_tests(self, stmt):
+        """tests of the if / while / conditional-expression branches that enclose ``stmt`` inside this function"""
+        out, child, p = [], stmt, getattr(stmt, "_parent", None)
+        while p is not None and p is not self.fn:
+            if isinstance(p, (ast.If, ast.While, ast.IfExp)) and child is not p.test:
+                out.append(p.test)
+            child, p = p, getattr(p, "_parent", None)
+        return out
+
+    def sources_with_control(self, e, at=None):
+        """sources(e) plus the inputs of every branch condition under which one of the definitions flowing into ``e``
+        was made (``if invert: s = wrap(s)`` makes ``invert`` an input of ``s``)"""
+        seen = set()
+        out = self.sources(e, at, 0, seen)
+        self._reaching()
+        done = set()
+        for _ in range(4):  # conditions whose own inputs were defined under further conditions
+            grew = False
+            for i in list(seen):
+                d = self._defs_by_id.get(i)
+                if d is None or d.stmt is None:
+                    continue
+                for t in self._control_tests(d.stmt):
+                    if id(t) not in done:
+                        done.add(id(t))
+                        out |= self.sources(t, d.stmt, 0, seen)
+                        grew = True
+            if not grew:
+                break
+        return out
+
     def sources(self, e, at=None, _depth=0, _seen=None):
         """root tags of every input that flows into the value of ``e`` (slices, calls, formatting, arithmetic all
         propagate): param:<n>, self:<attr>, global:<mod>.<n>, closure:<n>.  Constants contribute nothing."""
@@ -540,7 +572,50 @@ class FuncEffects:
                         return True
                     if isinstance(v, ast.Call) and isinstance(v.func, ast.Name) and v.func.id in ("list", "set", "dict", "defaultdict", "OrderedDict", "deque", "bytearray"):
                         return True
+                    if isinstance(v, ast.Name) and v.id != name and v.id in self.params and self._callers_pass_container(v.id):
+                        return True  # an alias of a parameter that the module's own call sites bind to a list / set / dict
+        if name in self.params and self._callers_pass_container(name):
+            return True
         return False
+
+    def _callers_pass_container(self, pname):
+        """every call site of this function in its own module (direct, or bound with ``partial``) passes, for parameter
+        ``pname``, a local that was built there as a list / set / dict literal or constructor call"""
+        key = ("cpc", pname)
+        cache = self.__dict__.setdefault("_cpc", {}) if hasattr(self, "__dict__") else {}
+        if key in cache:
+            return cache[key]
+        fname = self.fn.name
+        params = [p for p in self.params if p != self.selfname]
+        if pname not in params:
+            cache[key] = False
+            return False
+        idx = params.index(pname)
+        verdicts = []
+        for caller in self.mod.funcs.values():
+            for c in ast.walk(caller.node):
+                if not isinstance(c, ast.Call):
+                    continue
+                fn_txt = A.unparse(c.func)
+                args = None
+                if fn_txt.split(".")[-1] == fname:
+                    args = list(c.args)
+                elif fn_txt.split(".")[-1] == "partial" and c.args and A.unparse(c.args[0]).split(".")[-1] == fname:
+                    args = list(c.args[1:])
+                if args is None:
+                    continue
+                val = args[idx] if idx < len(args) and not any(isinstance(a, ast.Starred) for a in args[:idx + 1]) else next((k.value for k in c.keywords if k.arg == pname), None)
+                if val is None:
+                    continue
+                ok = isinstance(val, (ast.List, ast.Set, ast.Dict, ast.ListComp, ast.SetComp, ast.DictComp))
+                if isinstance(val, ast.Name):
+                    ds = [v for t, v, _ in A.assignments(caller.node, val.id)]
+                    ok = bool(ds) and all(isinstance(v, (ast.List, ast.Set, ast.Dict, ast.ListComp, ast.SetComp, ast.DictComp)) or (
+                        isinstance(v, ast.Call) and isinstance(v.func, ast.Name) and v.func.id in ("list", "set", "dict", "defaultdict", "OrderedDict", "deque")) for v in ds)
+                verdicts.append(ok)
+        res = bool(verdicts) and all(verdicts)
+        cache[key] = res
+        return res
 
     def sites(self):
         if self._sites is not None:
